@@ -661,4 +661,215 @@ theorem eventually_scrubbed (steps : List (Nat × Nat × Nat)) (infos : List (Op
 example : covered 2 [some {time := 5}, some {time := 3}, some {time := 9}, none, some {time := 1}]
     [(20, 1, 10), (21, 1, 10), (22, 1, 10), (23, 1, 10)] = true := by decide
 
+
+/-! ### a percentage plan whose budget covers everything selects every used stripe -/
+
+theorem lowerCount_all (T : List Nat) (r k : Nat) (h : ∀ t ∈ T, t ≤ r) (hk : k ≤ T.length) : lowerCount T r k = k := by
+  induction k with
+  | zero => rfl
+  | succ c ih =>
+    simp only [lowerCount]
+    have hlt : c < T.length := by omega
+    have hm : T.getD c 0 ∈ T := by
+      rw [List.getD_eq_getElem?_getD, List.getElem?_eq_getElem hlt]; simp
+    have := h _ hm
+    have hn : ¬ (T.getD c 0 > r) := by omega
+    rw [if_neg hn]
+
+/-- `lastRun` stops only at the start of the list or at an entry different from the limit -/
+theorem lastRun_max (T : List Nat) (c tl : Nat) (fuel last : Nat) (hf : c ≤ fuel + last) (hl : last ≤ c) :
+    lastRun T c tl fuel last = c ∨ T.getD (c - lastRun T c tl fuel last - 1) 0 ≠ tl := by
+  induction fuel generalizing last with
+  | zero =>
+    simp only [lastRun]
+    left; omega
+  | succ f ih =>
+    simp only [lastRun]
+    split
+    · rename_i hc
+      exact ih (last + 1) (by omega) (by omega)
+    · rename_i hc
+      by_cases hcl : c > last
+      · right
+        intro heq
+        exact hc ⟨hcl, heq⟩
+      · left; omega
+
+/-- number of used stripes checked exactly at time `m` -/
+def nAt (m : Nat) (is : List (Option Info)) : Nat :=
+  is.countP fun i => match i with | some x => decide (x.time = m) | none => false
+
+theorem nAt_eq (m : Nat) (is : List (Option Info)) :
+    nAt m is = (is.filterMap fun i => i.map (·.time)).countP (fun t => decide (t = m)) := by
+  induction is with
+  | nil => rfl
+  | cons i rest ih =>
+    cases i with
+    | none => simp only [nAt, List.countP_cons, List.filterMap_cons, Option.map_none] at ih ⊢; simpa using ih
+    | some x =>
+      simp only [nAt, List.countP_cons, List.filterMap_cons, Option.map_some] at ih ⊢
+      rw [ih]
+
+/-- with all times ≤ the limit and room in the at-the-limit counter for every stripe at the limit,
+    every used stripe is selected -/
+theorem select_all (c r : Nat) (lim : Limits) (is : List (Option Info)) (pos cl : Nat)
+    (hle : ∀ x : Info, some x ∈ is → x.time ≤ lim.timelimit)
+    (hroom : cl + nAt lim.timelimit is ≤ lim.lastlimit) (p : Nat) (x : Info) (hp : is[p]? = some (some x)) :
+    (selectFrom (.auto c r) lim pos cl is)[p]? = some true := by
+  induction is generalizing pos cl p with
+  | nil => simp at hp
+  | cons i rest ih =>
+    have hle' : ∀ y : Info, some y ∈ rest → y.time ≤ lim.timelimit := fun y hy => hle y (List.mem_cons_of_mem _ hy)
+    cases i with
+    | none =>
+      cases p with
+      | zero => simp at hp
+      | succ p' =>
+        rw [List.getElem?_cons_succ] at hp
+        simp only [selectFrom, enabled, List.getElem?_cons_succ]
+        apply ih (pos + 1) cl hle' _ p' hp
+        simpa [nAt] using hroom
+    | some y =>
+      have hy := hle y List.mem_cons_self
+      by_cases hb : y.bad = true
+      · -- bad: selected, counter untouched
+        have hen : enabled (.auto c r) lim pos (some y) cl = (true, cl) := by simp [enabled, hb]
+        cases p with
+        | zero => simp [selectFrom, hen]
+        | succ p' =>
+          rw [List.getElem?_cons_succ] at hp
+          simp only [selectFrom, hen, List.getElem?_cons_succ]
+          apply ih (pos + 1) cl hle' _ p' hp
+          have : nAt lim.timelimit rest ≤ nAt lim.timelimit (some y :: rest) := by
+            simp only [nAt, List.countP_cons]; omega
+          omega
+      · have hbf : y.bad = false := by cases h : y.bad <;> simp_all
+        by_cases heq : y.time = lim.timelimit
+        · have hcnt : nAt lim.timelimit (some y :: rest) = nAt lim.timelimit rest + 1 := by
+            simp [nAt, heq]
+          have hlt : ¬ (cl ≥ lim.lastlimit) := by omega
+          have hen : enabled (.auto c r) lim pos (some y) cl = (true, cl + 1) := by
+            simp [enabled, hbf, heq, hlt]
+          cases p with
+          | zero => simp [selectFrom, hen]
+          | succ p' =>
+            rw [List.getElem?_cons_succ] at hp
+            simp only [selectFrom, hen, List.getElem?_cons_succ]
+            exact ih (pos + 1) (cl + 1) hle' (by omega) p' hp
+        · have hlt : y.time < lim.timelimit := by omega
+          have hcnt : nAt lim.timelimit (some y :: rest) = nAt lim.timelimit rest := by
+            simp [nAt, heq]
+          have hen : enabled (.auto c r) lim pos (some y) cl = (true, cl) := by
+            have h1 : ¬ (y.time > lim.timelimit) := by omega
+            simp [enabled, hbf, h1, heq]
+          cases p with
+          | zero => simp [selectFrom, hen]
+          | succ p' =>
+            rw [List.getElem?_cons_succ] at hp
+            simp only [selectFrom, hen, List.getElem?_cons_succ]
+            exact ih (pos + 1) cl hle' (by omega) p' hp
+
+/-- in a sorted list whose last `L` entries equal `m` and whose entry before them differs from `m`
+    (or that has no entry before them), at most `L` entries equal `m` -/
+theorem sorted_count_eq_le (T : List Nat) (hs : T.Pairwise (· ≤ ·)) (m L : Nat) (hL : L ≤ T.length)
+    (hmax : ∀ t ∈ T, t ≤ m)
+    (hstop : L = T.length ∨ T.getD (T.length - L - 1) 0 ≠ m) :
+    T.countP (fun t => decide (t = m)) ≤ L := by
+  rcases hstop with hall | hne
+  · rw [hall]; exact List.countP_le_length
+  · have hsplit : T = T.take (T.length - L) ++ T.drop (T.length - L) := (List.take_append_drop _ _).symm
+    rw [hsplit, List.countP_append]
+    have hzero : (T.take (T.length - L)).countP (fun t => decide (t = m)) = 0 := by
+      apply List.countP_eq_zero.mpr
+      intro t ht
+      simp only [decide_eq_true_eq]
+      intro htm
+      -- t sits at an index i < length - L, so t ≤ T[length-L-1] < m
+      obtain ⟨i, hi, hti⟩ := List.mem_iff_getElem.mp ht
+      have hi' : i < T.length - L := by
+        have := List.length_take (i := T.length - L) (l := T); omega
+      have hilen : i < T.length := by omega
+      have hk : T.length - L - 1 < T.length := by omega
+      have hTi : T[i]'hilen = t := by
+        rw [← hti]; exact (List.getElem_take).symm
+      have hle : T[i]'hilen ≤ T[T.length - L - 1]'hk := by
+        rcases Nat.lt_or_ge i (T.length - L - 1) with h | h
+        · exact (List.pairwise_iff_getElem.mp hs) i (T.length - L - 1) hilen hk h
+        · have : i = T.length - L - 1 := by omega
+          subst this; exact Nat.le_refl _
+      have hkm : T[T.length - L - 1]'hk ≤ m := hmax _ (List.getElem_mem hk)
+      have hkne : T[T.length - L - 1]'hk ≠ m := by
+        intro h
+        apply hne
+        rw [List.getD_eq_getElem?_getD, List.getElem?_eq_getElem hk]; simpa using h
+      omega
+    rw [hzero, Nat.zero_add]
+    have := List.countP_le_length (p := fun t => decide (t = m)) (l := T.drop (T.length - L))
+    rw [List.length_drop] at this
+    omega
+
+/-- **full coverage**: a percentage plan whose budget is at least the number of used stripes and
+    whose age limit excludes none of them (`-p 100 -o 0`) selects EVERY used stripe -/
+theorem auto_full_coverage (infos : List (Option Info)) (c r : Nat)
+    (hbudget : (infos.filterMap fun i => i.map (·.time)).length ≤ c)
+    (hage : ∀ x : Info, some x ∈ infos → x.time ≤ r)
+    (p : Nat) (x : Info) (hp : infos[p]? = some (some x)) :
+    (select (.auto c r) infos)[p]? = some true := by
+  have hsel : select (.auto c r) infos = selectFrom (.auto c r) (limits infos c r) 0 0 infos := rfl
+  rw [hsel]
+  have hxmem : some x ∈ infos := List.mem_of_getElem? hp
+  -- the limits, explicitly
+  generalize hT : sortTimes (infos.filterMap fun i => i.map (·.time)) = T
+  have hsorted : T.Pairwise (· ≤ ·) := by rw [← hT]; exact sortTimes_pairwise _
+  have hlen : T.length = (infos.filterMap fun i => i.map (·.time)).length := by rw [← hT, sortTimes_length]
+  have hmemT : ∀ y : Info, some y ∈ infos → y.time ∈ T := by
+    intro y hy
+    rw [← hT, mem_sortTimes]
+    exact List.mem_filterMap.mpr ⟨some y, hy, rfl⟩
+  have hallr : ∀ t ∈ T, t ≤ r := by
+    intro t ht
+    rw [← hT, mem_sortTimes] at ht
+    obtain ⟨i, hi, he⟩ := List.mem_filterMap.mp ht
+    cases i with
+    | none => simp at he
+    | some y => simp only [Option.map_some, Option.some.injEq] at he; rw [← he]; exact hage y hi
+  have hn : 1 ≤ T.length := List.length_pos_of_mem (hmemT x hxmem)
+  have hmin : min c T.length = T.length := by rw [hlen]; omega
+  have hlc : lowerCount T r (min c T.length) = T.length := by
+    rw [hmin]; exact lowerCount_all T r T.length hallr (Nat.le_refl _)
+  have hpos : T.length > 0 := by omega
+  have hlim : limits infos c r =
+      (⟨T.length, T.getD (T.length - 1) 0, lastRun T T.length (T.getD (T.length - 1) 0) T.length 1⟩ : Limits) := by
+    unfold limits
+    simp only [hT, hlc, hpos, if_true]
+  -- the limit is the largest time
+  have hk : T.length - 1 < T.length := by omega
+  have hM : T.getD (T.length - 1) 0 = T[T.length - 1]'hk := by
+    rw [List.getD_eq_getElem?_getD, List.getElem?_eq_getElem hk]; rfl
+  have hmax : ∀ t ∈ T, t ≤ T.getD (T.length - 1) 0 := by
+    intro t ht
+    rw [hM]
+    obtain ⟨i, hi, hti⟩ := List.mem_iff_getElem.mp ht
+    rcases Nat.lt_or_ge i (T.length - 1) with h | h
+    · rw [← hti]; exact (List.pairwise_iff_getElem.mp hsorted) i (T.length - 1) hi hk h
+    · have : i = T.length - 1 := by omega
+      subst this; rw [← hti]; exact Nat.le_refl _
+  obtain ⟨hrun, hle, hge⟩ := lastRun_spec T T.length (T.getD (T.length - 1) 0) T.length 1
+    (by intro j h1 h2; have : j = 1 := by omega
+        subst this; rfl) (by omega)
+  have hmx := lastRun_max T T.length (T.getD (T.length - 1) 0) T.length 1 (by omega) (by omega)
+  have hcnt : nAt (T.getD (T.length - 1) 0) infos = T.countP (fun t => decide (t = T.getD (T.length - 1) 0)) := by
+    rw [nAt_eq, ← hT, sortTimes_countP]
+  have hroom : nAt (T.getD (T.length - 1) 0) infos ≤ lastRun T T.length (T.getD (T.length - 1) 0) T.length 1 := by
+    rw [hcnt]
+    apply sorted_count_eq_le T hsorted _ _ hle hmax
+    rcases hmx with h | h
+    · exact Or.inl h
+    · exact Or.inr h
+  rw [hlim]
+  exact select_all c r _ infos 0 0 (fun y hy => hmax _ (hmemT y hy)) (by simpa using hroom) p x hp
+
+example : select (.auto 5 100) [some {time := 7}, none, some {time := 9}, some {time := 9}, some {time := 3}, some {time := 9}]
+    = [true, false, true, true, true, true] := by decide
+
 end SnapraidVerif.Props.C15
